@@ -1,6 +1,8 @@
 package main
 
 import (
+	"os"
+	"runtime/debug"
 	"fmt"
 	"go/types"
 
@@ -27,6 +29,9 @@ func (ctx *Ctx) GenVC(fc *FuncContract) (res *FuncResult) {
 	defer func() {
 		if r := recover(); r != nil {
 			res.Err = fmt.Sprintf("internal error: %v", r)
+			if os.Getenv("GOCV_DEBUG") != "" {
+				fmt.Fprintf(os.Stderr, "%s\n", debug.Stack())
+			}
 		}
 	}()
 	if len(fc.Errors) > 0 {
